@@ -11,6 +11,7 @@ package main
 
 import (
 	"fmt"
+	"time"
 
 	"verifharness/collh"
 	"verifharness/lib"
@@ -341,13 +342,21 @@ func runColl(cfg *lib.Config, res *lib.Result, rng *lib.Rng) {
 	for _, ops := range collCorpus() {
 		r.check(ops, true, "corpus")
 	}
-	literals(r)
-	hashChains(r)
-	arrayChains(r)
-	deleteAllLists(r)
-	nestedKeys(r)
-	equalNotIdenticalKeys(r)
-	n, coq := 20000, 400
+	timed := func(name string, f func(*collRunner)) {
+		t0 := time.Now()
+		f(r)
+		res.Extra["coll_seconds_"+name] = time.Since(t0).Seconds()
+	}
+	timed("literals", literals)
+	timed("hash_chains", hashChains)
+	timed("array_chains", arrayChains)
+	timed("deleteall_lists", deleteAllLists)
+	timed("deleteall_chains", deleteAllChains)
+	timed("nested_keys", nestedKeys)
+	timed("equal_not_identical_keys", equalNotIdenticalKeys)
+	t0 := time.Now()
+	defer func() { res.Extra["coll_seconds_random"] = time.Since(t0).Seconds() }()
+	n, coq := 20000, 300
 	if cfg.Thorough() {
 		n, coq = 400000, 5000
 	}
@@ -420,8 +429,12 @@ func hashChains(r *collRunner) {
 		return len(pre) - 1
 	}
 	var letters []collh.Op
-	for _, k := range keys {
-		for _, v := range vals {
+	for i, k := range keys {
+		for j, v := range vals {
+			// quick tier: two values for the keys a and b only (the sequences of length 4 are the bulk of the run time)
+			if j > 0 && i > 1 && !r.cfg.Thorough() {
+				continue
+			}
 			letters = append(letters, collh.Op{Kind: "Add", X: lit(E(k, v))})
 		}
 	}
@@ -431,8 +444,6 @@ func hashChains(r *collRunner) {
 	letters = append(letters,
 		collh.Op{Kind: "DeleteAll", X: lit(A(S("a"), S("c")))},
 		collh.Op{Kind: "DeleteAll", X: lit(A(I(1), S("b"), A(S("a"))))},
-		collh.Op{Kind: "DeleteAll", X: lit(A(S("a"), S("a")))},
-		collh.Op{Kind: "DeleteAll", X: lit(A(S("c"), S("a"), S("c")))},
 		collh.Op{Kind: "Merge", X: lit(H(E(S("b"), I(7)), E(S("d"), I(8))))},
 		collh.Op{Kind: "Merge", X: lit(H(E(A(S("a")), I(7)), E(S("a"), I(8)), E(I(1), I(9))))},
 		collh.Op{Kind: "Slice", I: 0, J: 1},
@@ -440,7 +451,7 @@ func hashChains(r *collRunner) {
 	)
 	start := lit(H())
 	maxLen := 4
-	budget := 600
+	budget := 450
 	if r.cfg.Thorough() {
 		maxLen = 5
 		budget = 4000
@@ -496,7 +507,7 @@ func arrayChains(r *collRunner) {
 	}
 	start := lit(A())
 	maxLen := 4
-	budget := 400
+	budget := 300
 	if r.cfg.Thorough() {
 		maxLen = 5
 		budget = 3000
@@ -565,7 +576,7 @@ func deleteAllLists(r *collRunner) {
 			}
 			// the receiver is what it was
 			ops = append(ops, collh.Op{Kind: "Len", R: 0})
-			r.check(ops, n%3 == 0, "deleteall-lists")
+			r.check(ops, n%4 == 0, "deleteall-lists")
 		}
 	}
 	r.res.Extra["coll_deleteall_lists"] = n
@@ -596,7 +607,7 @@ func nestedKeys(r *collRunner) {
 	)
 	start := lit(H(E(H(E(S("a"), I(1))), S("x")), E(A(), S("y"))))
 	maxLen := 3
-	budget := 300
+	budget := 200
 	if r.cfg.Thorough() {
 		maxLen = 4
 		budget = 2000
@@ -669,4 +680,51 @@ func equalNotIdenticalKeys(r *collRunner) {
 		}
 	}
 	r.res.Extra["coll_equal_not_identical_key_histories"] = n
+}
+
+// deleteAllChains: every sequence of at most 4 operations (each on the result of the previous one) over puts,
+// Merge, Slice and DeleteAll with key lists that name a key twice or three times - the receiver of a DeleteAll is
+// then a hash made by an earlier operation (a merged one, a slice with spare capacity, a result of a DeleteAll).
+func deleteAllChains(r *collRunner) {
+	I, S, A, E, H := collh.In, collh.St, collh.Ar, collh.En, collh.Ha
+	var pre []collh.Op
+	lit := func(p *collh.PV) int {
+		pre = append(pre, collh.Op{Kind: "Lit", P: p})
+		return len(pre) - 1
+	}
+	letters := []collh.Op{
+		{Kind: "Add", X: lit(E(S("a"), I(1)))}, {Kind: "Add", X: lit(E(S("b"), I(2)))}, {Kind: "Add", X: lit(E(S("c"), I(3)))},
+		{Kind: "Merge", X: lit(H(E(S("b"), I(7)), E(S("d"), I(8))))},
+		{Kind: "Slice", I: 0, J: 1}, {Kind: "Slice", I: 1, J: 2},
+		{Kind: "DeleteAll", X: lit(A(S("a"), S("a")))},
+		{Kind: "DeleteAll", X: lit(A(S("c"), S("a"), S("c")))},
+		{Kind: "DeleteAll", X: lit(A(S("b"), S("b"), S("b")))},
+		{Kind: "DeleteAll", X: lit(A(S("z"), S("b"), S("z"), S("b")))},
+		{Kind: "DeleteAll", X: lit(H(E(S("a"), I(0)), E(S("d"), I(0))))},
+	}
+	start := lit(H())
+	maxLen := 4
+	if r.cfg.Thorough() {
+		maxLen = 5
+	}
+	idx := 0
+	var rec func(ops []collh.Op, last, d int)
+	rec = func(ops []collh.Op, last, d int) {
+		if d > 0 {
+			idx++
+			if d == maxLen || idx%7 == 0 {
+				r.check(ops, idx%97 == 0, "deleteall-chain")
+			}
+		}
+		if d == maxLen {
+			return
+		}
+		for _, l := range letters {
+			o := l
+			o.R = last
+			rec(append(append([]collh.Op{}, ops...), o), len(ops), d+1)
+		}
+	}
+	rec(pre, start, 0)
+	r.res.Extra["coll_deleteall_chain_sequences"] = idx
 }
